@@ -230,6 +230,12 @@ def history(ctx, seed):
                         S("GaussianVarCost", param={"tuple": [m_, v_]}), S("L2Cost", param=m_),
                         S("Saving", baseline_cost=S("GaussianCovCost", param={"tuple": [m_, v_]}))][
                     int(rng.integers(4))]
+            elif rng.random() < 0.3:
+                # adapters around a user cost with a second hyper-parameter (edited later through
+                # nested set_params on the adapter)
+                inner = S("L1Cost", param=round(float(rng.normal()), 2), weight=float([1.0, 2.0][int(rng.integers(2))]))
+                spec = [S("Saving", baseline_cost=inner), S("ChangeScore", cost=inner),
+                        S("LocalAnomalyScore", cost=inner)][int(rng.integers(3))]
             o = Obj(spec, build(spec), "scorer")
         elif r < 0.45:
             # detectors sharing ONE cost instance
@@ -304,6 +310,33 @@ def history(ctx, seed):
         dd = I.data_digest(D)
         r = rng.random()
         if o.kind == "scorer":
+            inner_key = next((a for a in ("cost", "baseline_cost")
+                              if isinstance(o.spec.get("kw", {}).get(a), dict)
+                              and o.spec["kw"][a].get("cls") in ("L1Cost", "L2Cost")), None)
+            if inner_key and r > 0.9:
+                # nested set_params on an adapter: must behave like an adapter built with the new value
+                spec2 = copy.deepcopy(o.spec)
+                ik = spec2["kw"][inner_key]["kw"]
+                if spec2["kw"][inner_key]["cls"] == "L1Cost" and rng.random() < 0.6:
+                    new = float([0.5, 3.0, 4.0][int(rng.integers(3))])
+                    ik["weight"] = new
+                    params = {f"{inner_key}__weight": new}
+                elif ik.get("param") is not None and not isinstance(ik["param"], dict):
+                    new = round(float(rng.normal()), 2)
+                    ik["param"] = new
+                    params = {f"{inner_key}__param": new}
+                else:
+                    params = None
+                if params:
+                    try:
+                        o.obj.set_params(**params)
+                        o.spec, o.train = spec2, None
+                        ctx.stat("scorer_set_params_events")
+                    except Exception as ex:
+                        ctx.violation(sub, "set_params-exception", f"history {seed} step {step}: "
+                                      f"{short(o.spec)}.set_params({params}) raised {type(ex).__name__}: {ex}",
+                                      {"seed": seed, "step": step})
+                    continue
             if r < 0.4 or o.train is None:
                 op = "fit"
                 st, _ = call(o.obj, "fit", arg_of(D))
